@@ -1140,6 +1140,27 @@ func (env *SpecEnv) call(x ECall) (SVal, error) {
 			return SVal{}, err
 		}
 		return env.deref(args[0])
+	case "fmt.Sprintf":
+		// the same uninterpreted function of the operands that the engine uses for
+		// a call with this constant format
+		lit, ok := x.Args[0].(EStr)
+		if !ok {
+			return SVal{}, fmt.Errorf("fmt.Sprintf in a specification needs a literal format")
+		}
+		var as []string
+		var sorts []Sort
+		for _, a := range args[1:] {
+			if a.T.Sort != SStr && a.T.Sort != SInt && a.T.Sort != SBool {
+				return SVal{}, fmt.Errorf("fmt.Sprintf in a specification: operands must be strings, integers or booleans")
+			}
+			as = append(as, a.T.S)
+			sorts = append(sorts, a.T.Sort)
+		}
+		fn := u.sprintfUF(lit.V, sorts)
+		if len(as) == 0 {
+			return SVal{T: Term{fn, SStr}, Typ: types.Typ[types.String]}, nil
+		}
+		return SVal{T: Term{sx(fn, as...), SStr}, Typ: types.Typ[types.String]}, nil
 	case "pathJoin":
 		var as, sorts []string
 		for _, a := range args {
